@@ -16,7 +16,8 @@ Anything the checker cannot classify is an undischarged obligation (never a pass
 import ast
 
 MUTATORS = {"append", "add", "update", "extend", "insert", "pop", "popitem", "clear", "remove", "discard",
-            "setdefault", "sort", "reverse", "appendleft", "popleft"}
+            "setdefault", "sort", "reverse", "appendleft", "popleft", "difference_update", "intersection_update",
+            "symmetric_difference_update"}
 
 # constructors / calls that return a fresh object (no aliasing of their arguments' identity as the returned container)
 FRESH_CALLS = {"set", "list", "dict", "tuple", "frozenset", "defaultdict", "Counter", "deque", "sorted", "reversed", "zip", "enumerate",
@@ -48,6 +49,11 @@ FRESH_METHODS = {"spawn", "copy", "chart", "items", "keys", "values", "split", "
                  "build", "compile", "GrammarBuilder", "Parser", "graphviz", "assert_equal", "warn", "rescale", "log_rescale", "logp",
                  "p_next_seq", "sample", "expand_alphabet", "preterminal", "join", "update_", "argmax", "argmin", "max", "min",
                  "next_column", "extend_chart", "chain", "prefix_grammar", "cnf", "_cnf", "rhs"}
+
+
+def _exits(stmts):
+    """Does this statement list always leave the enclosing block (return / raise / continue / break)?"""
+    return bool(stmts) and isinstance(stmts[-1], (ast.Return, ast.Raise, ast.Continue, ast.Break))
 
 
 class Spec:
@@ -274,6 +280,28 @@ class FrameChecker(ast.NodeVisitor):
                 self.store(t.value, node, "del item")
             elif isinstance(t, ast.Attribute):
                 self.store(t.value, node, "del attribute")
+
+    def visit_If(self, node):
+        # ownership facts must hold on every path: a name is owned after the `if` only if it is owned after both branches
+        if isinstance(node.test, ast.Constant):      # `if 0:` / `if True:` - only the live branch is code that runs
+            for st in (node.body if node.test.value else node.orelse):
+                self.visit(st)
+            return
+        self.visit(node.test)
+        before_o, before_e = set(self.owned), set(self.elem_owned)
+        for st in node.body:
+            self.visit(st)
+        o1, e1 = set(self.owned), set(self.elem_owned)
+        self.owned, self.elem_owned = set(before_o), set(before_e)
+        for st in node.orelse:
+            self.visit(st)
+        o2, e2 = set(self.owned), set(self.elem_owned)
+        if _exits(node.body):
+            self.owned, self.elem_owned = o2, e2
+        elif _exits(node.orelse):
+            self.owned, self.elem_owned = o1, e1
+        else:
+            self.owned, self.elem_owned = o1 & o2, e1 & e2
 
     def visit_For(self, node):
         self.visit(node.iter)
